@@ -17,6 +17,15 @@ func TestVerif_C02(t *testing.T) {
 	cfgs := vfTreeConfigs(evid.Tier() == "thorough")
 	eps := evid.Pick(120, 3000)
 	hits := map[string]uint64{}
+	for si, sc := range vfScripts {
+		tr := vfNewTree(rec, "C02", -1-si, cfgs)
+		if tr.dead {
+			return
+		}
+		tr.runScript(sc)
+		rec.Add("scripted_scenarios", 1)
+		tr.close()
+	}
 	for ep := 0; ep < eps && rec.Violations() < 25; ep++ {
 		tr := vfNewTree(rec, "C02", ep, cfgs)
 		if tr.dead {
